@@ -48,10 +48,12 @@ Proof.
   assert (Ha : ip_address (VInt (Z.of_N x)) = Normal (VAddr 4 (Z.of_N x))).
   { unfold ip_address. replace (0 <=? Z.of_N x) with true by (symmetry; apply Z.leb_le; lia).
     replace (Z.of_N x <? 2 ^ 32) with true by (symmetry; apply Z.ltb_lt; change (2 ^ 32) with (Z.of_N (2 ^ 32)%N); lia). reflexivity. }
-  rewrite Ha. cbn [bind]. rewrite gen_is_mask_refines. cbn [bind unpack2].
-  destruct (is_mask x); cbn [truthy bind py_not negb orb call].
-  - reflexivity.
-  - rewrite Hg. cbn [bind py_iter]. rewrite (membership_list x nets [] Hn). cbn [bind app py_any py_iter truthy negb call py_not].
-    now rewrite existsb_truthy.
+  (* the script names the facts; in which order the generated body uses them (one expression, or an early return for masks) is left to the normaliser *)
+  destruct (is_mask x) eqn:Em;
+    repeat first
+      [ progress cbn [bind bindS unpack2 truthy py_not negb orb andb call py_iter py_any app is_none]
+      | rewrite Ha | rewrite gen_is_mask_refines | rewrite Em | rewrite Hg
+      | rewrite (membership_list x nets [] Hn) | rewrite existsb_truthy ];
+    reflexivity.
 Qed.
 Print Assumptions gen_should_anonymize_refines.
